@@ -951,7 +951,20 @@ def m2m_concrete(op):
     (see oto_concrete); other ops unchanged."""
     if op[1] != 'xeq':
         return op
-    return (op[0], op[3], eqv(op[4]), eqv(op[5]))
+    s, mode, n, a = op[0], op[2], op[3], op[4:]
+    K = eqv if 'k' in mode else (lambda i: i)
+    V = eqv if 'v' in mode else (lambda i: i)
+    if n in ('add', 'remove', 'replace'):       # replace: 'k' = the old key, 'v' = the new key
+        return (s, n, K(a[0]), V(a[1]))
+    if n == 'del':
+        return (s, n, K(a[0]))
+    if n == 'setitem':
+        return (s, n, K(a[0]), tuple(V(v) for v in a[1]))
+    if n == 'setitem_lookup':                   # x[k] = x[k2]
+        return (s, n, K(a[0]), V(a[1]))
+    if n in ('update_pairs', 'update_iter', 'update_dict'):
+        return (s, n, tuple((K(k), V(v)) for k, v in a[0]))
+    raise AssertionError(op)
 
 
 def m2m_opname(op, P=None):
@@ -1181,6 +1194,14 @@ class M2mSpec:
             for k, v in PAIRS:              # operands equal to, but not the same objects (nor type) as, the stored ones
                 m.append((s, 'xeq', 'kv', 'add', k, v))
                 m.append((s, 'xeq', 'kv', 'remove', k, v))
+                m.append((s, 'xeq', 'kv', 'replace', k, v))     # replace(1.0, 2.0): equal, never identical operands
+            for k in DOM:
+                # the new key equals the old one without being the same object (and the three ways to get there)
+                m += [(s, 'xeq', 'k', 'replace', k, k), (s, 'xeq', 'v', 'replace', k, k)]
+                m += [(s, 'xeq', 'v', 'replace', k, (k + 1) % 3), (s, 'xeq', 'k', 'del', k),
+                      (s, 'xeq', 'kv', ('update_pairs', 'update_iter', 'update_dict')[k], ((k, 1), ((k + 1) % 3, k))),
+                      (s, 'xeq', 'kv', 'setitem', k, (k, (k + 1) % 3)), (s, 'xeq', 'k', 'setitem', k, ()),
+                      (s, 'xeq', 'kv', 'setitem_lookup', k, (k + 2) % 3)]
             for k in DOM:
                 for sub in subsets:
                     m.append((s, 'setitem', k, sub))
@@ -1626,7 +1647,14 @@ FD_MUTATORS = [
     ('ior(self)', False, lambda d, e: _ior(d, d)),
     ('setdefault(new-key)', False, lambda d, e: d.setdefault('z')),
     ('setdefault(new-key,default)', False, lambda d, e: d.setdefault('z', 9)),
-    ('setdefault(existing-key)', True, lambda d, e: d.setdefault(e, 9)),
+    ('setdefault(existing-key,default)', True, lambda d, e: d.setdefault(e, 9)),
+    ('setdefault(existing-key)', True, lambda d, e: d.setdefault(e)),
+    ('setdefault(existing-key,stored-value)', True, lambda d, e: d.setdefault(e, dict.__getitem__(d, e))),
+    ('update(dict-same-item)', True, lambda d, e: d.update({e: dict.__getitem__(d, e)})),
+    ('update(empty-pairs)', False, lambda d, e: d.update([])),
+    ('update(self)', False, lambda d, e: d.update(d)),
+    ('ior(dict-same-item)', True, lambda d, e: _ior(d, {e: dict.__getitem__(d, e)})),
+    ('ior(empty-pairs)', False, lambda d, e: _ior(d, [])),
     ('pop(existing)', True, lambda d, e: d.pop(e)),
     ('pop(existing,default)', True, lambda d, e: d.pop(e, None)),
     ('pop(missing)', False, lambda d, e: d.pop('z')),
@@ -1757,9 +1785,13 @@ def fd_check_content(FrozenDict, FrozenHashError, content, t, only=None):
             if mutating:
                 if not is_te:
                     bad('%s|raises-TypeError' % name, sub, 'TypeError', list(out[:2]))
-            elif not (is_te or out == p_out):
-                # the call would not change a dict: TypeError and the dict's own outcome are both consistent
-                bad('%s|outcome(effect-free-call)' % name, sub, ['TypeError', list(p_out[:2])], list(out[:2]))
+            elif not is_te:
+                # The call would not change a builtin dict (setdefault/update/|= that add nothing, pop of a missing
+                # key ...).  The statement speaks of the *operations* ("every mutating dict operation ... raises
+                # TypeError"), not of the calls that happen to change something, and the repository's own test demands
+                # TypeError for the effect-free `fd |= fd`: TypeError is demanded here too.  Own signature, so that
+                # this reading can be listed separately.
+                bad('%s|raises-TypeError(effect-free-call)' % name, sub, 'TypeError', list(out[:2]))
             if fd_snapshot(fd) != snap:
                 bad('%s|left-unchanged' % name, sub, fd_show(snap), fd_show(fd_snapshot(fd)))
             elif fd_hash_outcome(fd) != ref_hash:
@@ -2045,13 +2077,19 @@ def run(ctx):
                                                  'per state': [len(specs[0].observed_menu), len(specs[1].observed_menu)]},
                                              'keyword_pairs': [list(map(list, kw)) for kw in OTO_KWS],
                                              'operand_identity': ['the stored object (shared small int)',
-                                                                  'equal object of another type (float), xeq ops']},
+                                                                  'equal object of another type (float), xeq ops'],
+                                             'ManyToMany_xeq_ops': sorted(set(
+                                                 '%s:%s' % (op[3], XEQ_MODES[op[2]])
+                                                 for op in specs[1].menu if op[1] == 'xeq'))},
                      'OneToOne operand identity': {'objects': 'tuples ("obj", i), i in %r' % (DOM,),
                                                    'states': len(oto_value_states()), 'stored': ['shared', 'new equal'],
                                                    'operands': ['the shared object', 'a new equal object'],
                                                    'ops': list(OTO_ID_PAIR_OPS + OTO_ID_KEY_OPS), 'sides': ['forward', 'inv']},
                      'FrozenDict': {'keys': list(FD_KEYS), 'values': list(values), 'max_items': 3,
                                     'classes': ['FrozenDict', 'plain subclass', 'slotted subclass (hash part)'],
+                                    'mutator_calls': [name for name, _, _ in FD_MUTATORS],
+                                    'mutator_oracle': 'TypeError for every call of a mutating operation, also when the '
+                                                      'same call would leave a builtin dict as it is',
                                     'insertion_orders': 'all', 'ordered_contents': sum(1 for _ in fd_contents(values))}}
     cov['exhaustive'] = all(r.fixpoint for _, r in parts)
     ctx.assumptions += [
